@@ -175,8 +175,285 @@ func freshHolderRule(c *Ctx, pr *PropertyRun, prop string) {
 			}
 		})
 	}
+	// The same for the library's own fill-in helpers: a struct variable
+	// declared in front of a loop, handed by address to a library function
+	// inside the loop and then copied out whole (appended, stored) keeps the
+	// fields the helper did not set this time from the previous iteration,
+	// unless the helper overwrites the whole value on every path or the
+	// variable is reset first.
+	for _, fn := range p.ModFns {
+		if !inLib(fn) || len(fn.Blocks) == 0 {
+			continue
+		}
+		eachCall(fn, func(site ssa.CallInstruction) {
+			call, ok := site.(*ssa.Call)
+			if !ok {
+				return
+			}
+			callee := call.Common().StaticCallee()
+			if callee == nil || !inLib(callee) || len(callee.Blocks) == 0 {
+				return
+			}
+			b := call.Block()
+			if !blockReaches(b, b) {
+				return
+			}
+			for ai, a := range call.Common().Args {
+				al, isAlloc := a.(*ssa.Alloc)
+				if !isAlloc || ai >= len(callee.Params) {
+					continue
+				}
+				if _, isStruct := al.Type().(*types.Pointer).Elem().Underlying().(*types.Struct); !isStruct {
+					continue
+				}
+				if al.Block() == b || inSameCycle(al.Block(), b) {
+					continue // a fresh variable per iteration
+				}
+				// copied out whole inside the cycle?
+				copied := false
+				reset := false
+				for _, ref := range refsOf(al) {
+					switch x := ref.(type) {
+					case *ssa.UnOp:
+						if x.X == ssa.Value(al) && (x.Block() == b || inSameCycle(x.Block(), b)) && len(refsOf(x)) > 0 {
+							copied = true
+						}
+					case *ssa.Store:
+						if x.Addr == ssa.Value(al) {
+							sb := x.Block()
+							if (sb == b || inSameCycle(sb, b)) && sb.Dominates(b) {
+								reset = true
+							}
+						}
+					}
+				}
+				if !copied {
+					continue
+				}
+				r.Role("filled-in-loop")
+				ok := reset || overwritesWhole(callee, callee.Params[ai])
+				r.Ob(ok)
+				if !ok {
+					r.Violation("fresh-holder|"+fnKey(fn)+"|"+al.Comment, p.instrPos(call), fmt.Sprintf("%s fills %q through %s inside a loop and copies it out, but %q is declared once outside the loop, is not reset, and %s does not overwrite the whole value: the fields it does not set for this element keep what an earlier element put there", fnKey(fn), al.Comment, fnKey(callee), al.Comment, fnKey(callee)), nil)
+				}
+			}
+		})
+	}
 	r.RequireRole("decode-in-loop")
 	if p.Control {
 		r.ExpectControl("fresh-holder|")
 	}
+}
+
+// overwritesWhole: the function stores a whole value through the pointer
+// parameter on every path (a store in a block that dominates every return).
+func overwritesWhole(fn *ssa.Function, prm *ssa.Parameter) bool {
+	for _, ref := range refsOf(prm) {
+		st, ok := ref.(*ssa.Store)
+		if !ok || st.Addr != ssa.Value(prm) {
+			continue
+		}
+		all := true
+		for _, b := range fn.Blocks {
+			if _, isRet := b.Instrs[len(b.Instrs)-1].(*ssa.Return); isRet && !st.Block().Dominates(b) {
+				all = false
+			}
+		}
+		if all {
+			return true
+		}
+	}
+	return false
+}
+
+// errToleratedAnywhere: there is a way on which the call's error is non-nil
+// and the function nevertheless goes on: back to the call (a loop that
+// continues) or to a return that does not hand the error on.
+func errToleratedAnywhere(site *ssa.Call) bool {
+	var errVals []ssa.Value
+	v := ssa.Value(site)
+	if tup, ok := v.Type().(*types.Tuple); ok {
+		for _, ref := range refsOf(v) {
+			if ex, ok := ref.(*ssa.Extract); ok && isErrorType(tup.At(ex.Index).Type()) {
+				errVals = append(errVals, ex)
+			}
+		}
+	} else if isErrorType(v.Type()) {
+		errVals = append(errVals, v)
+	} else {
+		return false
+	}
+	isErrVal := func(x ssa.Value) bool {
+		for _, ev := range errVals {
+			if x == ev {
+				return true
+			}
+			if phi, ok := x.(*ssa.Phi); ok {
+				for _, e := range phi.Edges {
+					if e == ev {
+						return true
+					}
+				}
+			}
+		}
+		return false
+	}
+	tested := false
+	for _, ev := range errVals {
+		for _, ref := range refsOf(ev) {
+			bo, ok := ref.(*ssa.BinOp)
+			if !ok {
+				continue
+			}
+			for _, r2 := range refsOf(bo) {
+				iff, ok := r2.(*ssa.If)
+				if !ok {
+					continue
+				}
+				tested = true
+				succ := iff.Block().Succs[0]
+				if bo.Op.String() == "==" {
+					succ = iff.Block().Succs[1]
+				}
+				seen := map[*ssa.BasicBlock]bool{}
+				var walk func(b *ssa.BasicBlock) bool
+				walk = func(b *ssa.BasicBlock) bool {
+					if b == site.Block() {
+						return true
+					}
+					if seen[b] {
+						return false
+					}
+					seen[b] = true
+					if ret, isRet := b.Instrs[len(b.Instrs)-1].(*ssa.Return); isRet {
+						for _, res := range ret.Results {
+							if isErrVal(res) {
+								return false
+							}
+							// wrapped or converted: still handed on
+							if c, isCall := res.(*ssa.Call); isCall {
+								for _, a := range c.Common().Args {
+									if isErrVal(a) {
+										return false
+									}
+								}
+							}
+							if mi, isMI := res.(*ssa.MakeInterface); isMI {
+								_ = mi
+							}
+						}
+						// a return of some other non-nil error value is a
+						// failure too, not a toleration
+						for _, res := range ret.Results {
+							if isErrorType(res.Type()) && !isNilConst(res) {
+								return false
+							}
+						}
+						return true
+					}
+					if _, isPanic := b.Instrs[len(b.Instrs)-1].(*ssa.Panic); isPanic {
+						return false
+					}
+					for _, s := range b.Succs {
+						if walk(s) {
+							return true
+						}
+					}
+					return false
+				}
+				if walk(succ) {
+					return true
+				}
+			}
+		}
+	}
+	return !tested
+}
+
+// statusBeforeToleranceRule: Response.DecodeProp reports a failing status of
+// the whole response and a failing (or missing) property through the same
+// kind of error. Code that tolerates "not found" from DecodeProp must have
+// looked at the response's own status first (Response.Path or Response.Err
+// returned nil), or a resource the server reported as failed is silently
+// treated as one that merely lacks the property.
+func statusBeforeToleranceRule(c *Ctx, pr *PropertyRun, prop string) {
+	p := c.P
+	r := NewRule(prop, prop+".status-before-tolerance", "a DecodeProp whose error is tolerated is dominated by the nil result of Response.Path/Response.Err for the same response: the response's own failure status is never taken for a missing property (E4)")
+	pr.Rules = append(pr.Rules, r)
+	decodeProp := p.MustFunc(r, pkgInternal, "(*Response).DecodeProp")
+	pathFn := p.Func(pkgInternal, "(*Response).Path")
+	errFn := p.Func(pkgInternal, "(*Response).Err")
+	if decodeProp == nil {
+		return
+	}
+	recvRoot := func(v ssa.Value) ssa.Value {
+		for i := 0; i < 4; i++ {
+			switch x := v.(type) {
+			case *ssa.UnOp:
+				v = x.X
+			case *ssa.ChangeType:
+				v = x.X
+			default:
+				return v
+			}
+		}
+		return v
+	}
+	for _, fn := range p.ModFns {
+		if !inLib(fn) || len(fn.Blocks) == 0 || (fnPkg(fn) != nil && fnPkg(fn).Path() == pkgInternal) {
+			continue
+		}
+		// status checks of this function: receiver root -> blocks where the
+		// check's error is known nil
+		type chk struct {
+			root ssa.Value
+			call *ssa.Call
+		}
+		var checks []chk
+		eachCall(fn, func(site ssa.CallInstruction) {
+			call, ok := site.(*ssa.Call)
+			if !ok {
+				return
+			}
+			callee := call.Common().StaticCallee()
+			if callee == nil || (callee != pathFn && callee != errFn) || len(call.Common().Args) == 0 {
+				return
+			}
+			checks = append(checks, chk{recvRoot(call.Common().Args[0]), call})
+		})
+		eachCall(fn, func(site ssa.CallInstruction) {
+			call, ok := site.(*ssa.Call)
+			if !ok || call.Common().StaticCallee() != decodeProp || len(call.Common().Args) == 0 {
+				return
+			}
+			if !errToleratedAnywhere(call) {
+				return
+			}
+			r.Role("tolerated-decode")
+			root := recvRoot(call.Common().Args[0])
+			ok = false
+			for _, ck := range checks {
+				if ck.root != root {
+					continue
+				}
+				var ev ssa.Value = ck.call
+				if _, isTup := ck.call.Type().(*types.Tuple); isTup {
+					ev = nil
+					for _, ref := range refsOf(ck.call) {
+						if ex, isEx := ref.(*ssa.Extract); isEx && isErrorType(ex.Type()) {
+							ev = ex
+						}
+					}
+				}
+				if ev != nil && knownNilAt(ev, call.Block()) {
+					ok = true
+				}
+			}
+			r.Ob(ok)
+			if !ok {
+				r.Violation("tolerance-before-status|"+fnKey(fn), p.instrPos(call), fmt.Sprintf("%s tolerates the error of Response.DecodeProp without having found the response's own status good first (Response.Path / Response.Err): a resource the server reports as failed (response-level 404) is treated as one that lacks the property, and the failure is dropped", fnKey(fn)), nil)
+			}
+		})
+	}
+	r.RequireRole("tolerated-decode")
 }
